@@ -103,7 +103,9 @@ def random_tree(rnd: random.Random, depth: int) -> list:
     left = random_tree(rnd, depth - 1)
     right = random_tree(rnd, depth - 1)
     if op in ("<<", ">>"):
-        right = [rnd.choice([0, 1, 2, 4, 8, 12, 16, 24])]
+        # a shift count is a small literal and the shift is parenthesised: the flat token string is re-read by
+        # precedence, and `a << 16 * 0xffffffff` would ask Python for a number of 10^11 bits
+        return ["("] + (left if len(left) == 1 else ["("] + left + [")"]) + [op, rnd.choice([0, 1, 2, 4, 8, 12, 16, 24]), ")"]
     return left + [op] + right
 
 
